@@ -221,7 +221,7 @@ func (d *floatDecoder) DecodePath(ctx *RuntimeContext, cursor, depth int64) ([][
 		return nil, 0, err
 	}
 	if bytes == nil {
-		return [][]byte{nullbytes}, c, nil
+		return [][]byte{[]byte("null")}, c, nil
 	}
 	return [][]byte{bytes}, c, nil
 }
